@@ -3,6 +3,7 @@ from __future__ import annotations
 
 import logging
 import math
+import warnings
 import os
 import random
 import shutil
@@ -335,6 +336,32 @@ def crs_same(file_crs, spec: str):
 
 
 DTYPES = ["uint8", "int16", "uint16", "float32", "float64"]
+SPELLINGS = ["py", "py", "np_pix", "np_pix", "np_f32", "np_f64", "np_i64", "arr0d"]
+
+
+def spell(v, kind: str, dt):
+    """the same number in another spelling (python int / float, numpy scalar of the pixel type, np.float32 / float64 /
+    int64, 0-d array); the plain python value when that spelling cannot hold it exactly"""
+    if v is None or kind == "py":
+        return v
+    try:
+        with warnings.catch_warnings():
+            warnings.simplefilter("ignore")
+            out = {"np_pix": lambda: np.dtype(dt).type(v), "np_f32": lambda: np.float32(v), "np_f64": lambda: np.float64(v),
+                   "np_i64": lambda: np.int64(v) if float(v).is_integer() else v, "arr0d": lambda: np.array(v, dtype=dt)}[kind]()
+        same = (float(out) == float(v)) or (math.isnan(float(out)) and math.isnan(float(v)))
+        return out if same else v
+    except (ValueError, OverflowError, TypeError):
+        return v
+
+
+def snapshot(obj):
+    """structural fingerprint of a caller-owned argument"""
+    if isinstance(obj, dict):
+        return ("dict", tuple((k, snapshot(v)) for k, v in obj.items()))
+    if isinstance(obj, (list, tuple)):
+        return (type(obj).__name__, tuple(snapshot(v) for v in obj))
+    return ("val", type(obj).__name__, repr(obj))
 
 
 def gen_cfg(rng: random.Random, big: bool):
@@ -435,12 +462,14 @@ def gen_cfg(rng: random.Random, big: bool):
         if ax == "SYX" and ns == ny == nx:
             nx += 1
         irregular = None
+        cy, cx = rng.choice([32, 64, 100, 300]), rng.choice([32, 64, 100, 300])  # (the chunking chosen above was for another shape)
         spill = dict(spill_sz=1, wpc=rng.choice([2, 3]))
     out_cfg = dict(
         shape=[ny, nx], axis=ax, ns=ns, dtype=dt, blocksize=bs, comp=comp, ckw=ckw, predictor=pred, nodata=nodata,
         chunks=[cy, cx], irregular=irregular, byteorder=rng.choice(["=", "=", "=", "=", "=", ">"]),
         dst_state=rng.choice(["fresh", "fresh", "fresh", "existing-small", "existing-large", "parts-dir"]),
         recompute=recompute, bs_container=rng.choice(["list", "list", "tuple"]),
+        nd_spell=rng.choice(SPELLINGS), cargs_route=rng.random() < 0.25 and cu not in ("JPEG", "WEBP", "NONE", "LZW", "PACKBITS", "LZMA"),
         sch=rng.choice([1, ns]), spill_sz=rng.choice([None, None, 1, 5000, 20000, 100000]),
         wpc=rng.choice([None, None, 1, 2, 3]), bigtiff=rng.choice([None, None, True, False]),
         stats=rng.choice([True, False, True]),
@@ -482,7 +511,7 @@ def build_input(cfg, GeoBox, wrap_xr):
     kw = {}
     if ax == "SYX":
         kw["time"] = [f"20{i:02d}-01-01" for i in range(ns)]
-    xx = wrap_xr(dd, gbox, nodata=nodata, **kw)
+    xx = wrap_xr(dd, gbox, nodata=spell(nodata, cfg.get("nd_spell", "py"), cfg["dtype"]), **kw)
     skw = dict(compression=cfg["comp"], stats=cfg["stats"])
     if cfg["blocksize"] is not None:
         b = cfg["blocksize"]
@@ -496,6 +525,13 @@ def build_input(cfg, GeoBox, wrap_xr):
     if cfg["comp"].lower() == "none" or "level" in cfg.get("ckw", {}):
         skw.pop("level", None)
     skw.update(cfg.get("ckw", {}))
+    if cfg.get("cargs_route"):
+        # the level travels in a caller-owned compressionargs= dict instead of a keyword
+        lv = skw.pop("level", None)
+        for k_ in list(skw):
+            if k_.lower() in ("zlevel", "zstd_level", "max_z_error") and not (cfg["comp"].upper().startswith("LERC_") and k_.lower() != "max_z_error"):
+                lv = skw.pop(k_)
+        skw["compressionargs"] = {} if lv is None else {"level": lv}
     return xx, pix, gbox, skw
 
 
@@ -590,7 +626,7 @@ def write_together(cfgs, workdir: str, tags):
     return None
 
 
-def e2e(cfg, workdir: str, tag: str, precomputed: bool = False):
+def e2e(cfg, workdir: str, tag: str, precomputed: bool = False, shared=None):
     """Run one end-to-end case on the real code.  Returns (facts, failures): `facts` are the
     canonical strings for the correspondence lines, `failures` = [(key, what)] of the oracle.
     precomputed=True: the file was already written by `write_together`; only judge it."""
@@ -602,6 +638,20 @@ def e2e(cfg, workdir: str, tag: str, precomputed: bool = False):
     fails = []
     facts = {}
     xx, pix, gbox0, skw = build_input(cfg, GeoBox, wrap_xr)
+    if shared:  # option OBJECTS the caller re-uses across several saves
+        skw["compressionargs"] = shared["cargs"]
+        if isinstance(skw.get("blocksize"), list) and skw["blocksize"] == shared["blocksize"]:
+            skw["blocksize"] = shared["blocksize"]
+    owned = {k: v for k, v in skw.items() if isinstance(v, (dict, list))}
+    owned["xx.attrs"] = xx.attrs
+    owned_before = {k: snapshot(v) for k, v in owned.items()}
+
+    def check_owned():
+        ch = [k for k, v in owned.items() if snapshot(v) != owned_before[k]]
+        if ch and not any(k_ == "caller-argument-mutated" for k_, _ in fails):
+            fails.append(("caller-argument-mutated", "save_cog_with_dask modified the caller's own object(s): "
+                          + "; ".join(f"{k}={owned[k]!r}"[:100] for k in ch)))
+
     gbox = xx.odc.geobox  # what the writer sees (identical to gbox0 on the dyadic stream)
     if gbox is None or tuple(gbox.shape) != tuple(cfg["shape"]):
         return facts, [("harness-geobox", "input array lost its geobox")]
@@ -628,6 +678,7 @@ def e2e(cfg, workdir: str, tag: str, precomputed: bool = False):
             dry = T.save_cog_with_dask(xx, "", **dict(skw))
         meta = dry["meta"]
         facts["cog"] = cog_s(meta)
+        check_owned()
     except Exception as e:  # pylint: disable=broad-except
         if innermost_in(e, "tifffile", "imagecodecs") and cfg["comp"].lower() not in ("deflate", "zstd", "none"):
             # tifffile's own validation refuses the combination (e.g. JPEG with 16-bit samples): a rejected
@@ -710,6 +761,7 @@ def e2e(cfg, workdir: str, tag: str, precomputed: bool = False):
         where = loc[0].split(":")[1] if loc else "dask"
         fails.append((f"save-cog-raises:{type(e).__name__}@{where}", f"compute() raised {type(e).__name__}: {str(e)[:200]} at {loc}"))
         return facts, fails
+    check_owned()
     if os.path.exists(os.path.join(workdir, f".{tag}.tif.parts")):
         fails.append(("parts-dir-left-behind", "temporary parts directory not removed"))
     if probe_err is not None:
@@ -1048,9 +1100,9 @@ def cfg_sig(cfg) -> str:
     return f"e2e|{cfg['axis']}|{narrow}|{cfg['comp'].lower()}|{sched}"
 
 
-def run_e2e(R: Run, cfg, workdir: str, tag: str, precomputed: bool = False):
+def run_e2e(R: Run, cfg, workdir: str, tag: str, precomputed: bool = False, shared=None):
     try:
-        facts, fails = with_timeout(180.0, lambda: e2e(cfg, workdir, tag, precomputed))
+        facts, fails = with_timeout(180.0, lambda: e2e(cfg, workdir, tag, precomputed, shared))
     except _Timeout:
         facts, fails = {}, [("save-cog-does-not-finish", "writing / decoding one small image did not finish within 180 s")]
     except Exception as e:  # pylint: disable=broad-except
@@ -1585,6 +1637,27 @@ def run(R: Run):
                     R.corr(f"c05 patch {list_s(ms, meta_s)} {hsz} {obs}", lambda: info_s(tags), sig="handoff|offsets")
                 os.unlink(d)
             R.oracle(not bad, bad[0][0] if bad else "handoff", case, "; ".join(w for _, w in bad[:3]), sig="handoff")
+
+        # ---- sequences of saves that RE-USE the caller's option objects (one compressionargs dict, one blocksize list):
+        # every file must come out as with fresh arguments (a level / LERC tolerance given for one save must not stick),
+        # and the objects must stay as the caller made them
+        for k in range(R.pick(6, 80)):
+            shared = {"cargs": {}, "blocksize": [16, 32]}
+            frozen = snapshot(shared)
+            fam_ = rng.choice([["lerc", "lerc", "Lerc_ZSTD"], ["zstd", "zstd", "deflate"], ["lerc_deflate", "lerc", "lerc"]])
+            for j in range(rng.randint(2, 3)):
+                cfg = gen_cfg(rng, big=False)
+                own_kw = {"lerc": "max_z_error", "lerc_zstd": "max_z_error", "lerc_deflate": "max_z_error", "zstd": "zstd_level",
+                          "deflate": "zlevel"}[fam_[j].lower()]
+                cfg.update(comp=fam_[j], ckw=({own_kw: rng.choice([1, 2, 9])} if j == 0 or rng.random() < 0.3 else {}), level=None,
+                           predictor=None, blocksize=[16, 32], bs_container="list", cargs_route=False, recompute=False, dst_state="fresh",
+                           dtype=rng.choice(["float32", "int16", "uint16"]), byteorder="=", seq=[k, j])
+                cfg["nodata"] = rng.choice([None, 7])
+                if cfg["axis"] == "YX":
+                    cfg["ns"] = 1
+                run_e2e(R, cfg, workdir, f"q{k}_{j}", shared=shared)
+            R.oracle(snapshot(shared) == frozen, "caller-argument-mutated", {"sequence": k, "shared": repr(shared)},
+                     f"option objects re-used across saves were modified: {shared!r}", sig="e2e|sequence|shared-objects")
 
         # ---- the sink under forced interleavings of the FIRST part writes (parts directory created lazily): every
         # interleaving of two writers' filesystem steps, a seeded sample (thorough: many more) for three writers
